@@ -334,6 +334,15 @@ def all_cases(tier, seed):
                                               'ws-first', 'ws-steady']),
                           'srv': rng.choice('TAHN'),
                           'chunks': rng.choice([1, 2, 5])})
+    # a limit raised above the default, and bodies between the default and
+    # the raised limit, delivered in several pieces where the gateway does
+    # that: the configured limit is the only limit
+    for binary in (False, True):
+        for srv in ('T', 'A', 'H', 'N'):
+            for L in (1200000, 1999990):
+                cases.append({'kind': 'size', 'M': 2000000, 'L': L,
+                              'binary': binary, 'decl': 'eq', 'path': 'post',
+                              'srv': srv, 'chunks': 5})
     for k in range(0, 19):
         for limit in (1, 16):
             for srv in ('T', 'A', 'H', 'N'):
